@@ -243,6 +243,7 @@ class BaseConverter:
                 (is_sequence, self._unstructure_seq),
                 (is_mutable_set, self._unstructure_seq),
                 (is_frozenset, self._unstructure_seq),
+                (is_namedtuple, namedtuple_unstructure_factory, "extended"),
                 (lambda t: issubclass(t, Enum), self._unstructure_enum),
                 (has, self._unstructure_attrs),
                 (is_union_type, self._unstructure_union),
